@@ -47,7 +47,7 @@ ObsInit == [cfg |-> <<>>, rec |-> <<>>, claim |-> <<>>, open |-> <<>>, spent |->
             sent |-> {}, tx |-> <<>>, tip |-> [btc |-> 1000, lbtc |-> 5000], act |-> {}, disk |-> {},
             now |-> 0, up |-> TRUE, treq |-> <<>>, tagr |-> <<>>, step |-> NoStep, allowNew |-> TRUE,
             susp |-> FALSE, allowed |-> FALSE, csvdone |-> {}, timersFired |-> FALSE, removed |-> <<>>, lateretx |-> <<>>,
-            ver |-> "current", restarted |-> FALSE, faults |-> FALSE, crashes |-> FALSE, lost |-> {}, lostspend |-> {}]
+            ver |-> "current", restarted |-> FALSE, faults |-> FALSE, crashes |-> FALSE, lost |-> {}, lostspend |-> {}, reloaded |-> {}]
 
 Rec(o, s)   == Get(o.rec, s, [cur |-> "none", role |-> "none"])
 Claim(o, s) == Get(o.claim, s, NoClaim)
@@ -188,6 +188,7 @@ ChkQuiesce(o, e, act, disk) ==
            /\ ~o.faults /\ ~o.crashes
         THEN {"C26|peer-not-recorded-suspicious"} ELSE {})
 
+AmtSat(c) == CASE c \in {"", "typ"} -> 1000000 [] c = "min" -> 100000 [] c = "belowmin" -> 99999 [] c = "big" -> 1500000 [] c = "one" -> 1 [] OTHER -> 1000000
 \* C11 C10 C26 at the return of a request delivery / local initiation
 Admit(o, m, chain) ==
   /\ o.allowNew
@@ -195,7 +196,7 @@ Admit(o, m, chain) ==
   /\ m.ver \in {0, 7}
   /\ m.asset \in {"", "own"}
   /\ m.pubkey \in {"", "good"}
-  /\ m.amt \in {"", "typ", "min", "big"}
+  /\ AmtSat(m.amt) * 1000 >= o.cfg.min_swap_msat
   /\ (o.cfg.accept_all \/ o.allowed) /\ ~o.susp
   /\ m.limit \in {"", "ok", "exact"}
   /\ m.scid \in {"", "100x1x1", "100:1:1", "200x2x2", "200:2:2"}
@@ -218,7 +219,7 @@ ChkRet(o, e) ==
         THEN {"C11|inadmissible-request-agreed|" \o st.kind \o "|" \o
                (IF ~o.allowNew THEN "swaps-disabled" ELSE IF o.susp THEN "suspicious" ELSE IF ~(o.cfg.accept_all \/ o.allowed) THEN "not-allowlisted"
                 ELSE IF m.ver \notin {0, 7} THEN "version" ELSE IF m.asset \notin {"", "own"} THEN "asset-" \o m.asset
-                ELSE IF m.amt \notin {"", "typ", "min", "big"} THEN "amount-" \o m.amt ELSE IF m.limit \notin {"", "ok", "exact"} THEN "premium-limit-" \o m.limit
+                ELSE IF AmtSat(m.amt) * 1000 < o.cfg.min_swap_msat THEN "amount-" \o m.amt \o "-below-minimum-" \o ToString(o.cfg.min_swap_msat) ELSE IF m.limit \notin {"", "ok", "exact"} THEN "premium-limit-" \o m.limit
                 ELSE IF m.pubkey \notin {"", "good"} THEN "pubkey" ELSE "chain-or-scid")} ELSE {})
   \cup (IF freshReq /\ st.from = "third" /\ agreed /\ ~(o.cfg.accept_all) THEN {"C11|third-party-agreed"} ELSE {})
   \cup (IF freshReq /\ ~agreed /\ ~cancelWithId /\ faultFree
@@ -251,6 +252,15 @@ ChkTimers(o) ==
       s \in {x \in DOMAIN o.tagr : o.now >= o.tagr[x] + 10 /\ o.rec[x].role = "out_receiver" /\ <<x, "fee">> \notin o.paidin
                  /\ (o.rec[x].cur # "State_SwapCanceled" \/ (~o.rec[x].cancel_obj /\ ~(\E y \in o.sent : y[1] = x /\ y[2] = "cancel")))}}
 
+\* C07c at the end of a trace that ended with a closure (with or without restarts): the CSV matured while the
+\* invoice was unpaid => the maker has broadcast a transaction spending the output back
+ChkRefund(o, e) ==
+  IF ~(Has(e, "closure") /\ e.closure \in {"full", "norestart"}) THEN {} ELSE
+  {"C07|csv-matured-refund-not-broadcast|" \o Rec(o, s).role \o "|" \o (IF s \in o.lost THEN "crash-between-broadcast-and-persist" ELSE Rec(o, s).cur)
+     \o (IF e.closure = "norestart" THEN "|without-restart" ELSE "") :
+     s \in {x \in DOMAIN o.open : /\ x \in DOMAIN o.rec /\ o.open[x].n >= 1 /\ <<x, "claim">> \notin o.paidin /\ Get(o.spent, x, {}) = {}
+                                  /\ o.open[x].tx \in DOMAIN o.tx /\ o.tx[o.open[x].tx].conf > 0
+                                  /\ o.tip[o.tx[o.open[x].tx].chain] - o.tx[o.open[x].tx].conf + 1 >= Csv(o.tx[o.open[x].tx].chain, Rec(o, x).ver)}}
 \* C16 / C06c / C07c at the end of a trace that ended with the fair closure
 ChkEnd(o, e) ==
   IF ~(Has(e, "closed") /\ e.closed) THEN {} ELSE
@@ -319,7 +329,8 @@ ApplyEv(o, e) ==
                        !.susp = IF e.a = "policy" /\ e.kind = "suspect" THEN TRUE ELSE IF e.a = "policy" /\ e.kind = "unsuspect" THEN FALSE ELSE @,
                        !.allowed = IF e.a = "policy" /\ e.kind = "allow" THEN TRUE ELSE IF e.a = "policy" /\ e.kind = "disallow" THEN FALSE ELSE @]
     [] e.ev = "timer.fire" -> [o EXCEPT !.now = e.now, !.timersFired = TRUE]
-    [] e.ev = "start" -> [o EXCEPT !.up = TRUE, !.restarted = @ \/ e.recover, !.removed = <<>>, !.lateretx = <<>>]
+    [] e.ev = "start" -> [o EXCEPT !.up = TRUE, !.restarted = @ \/ e.recover, !.removed = <<>>, !.lateretx = <<>>, !.reloaded = {}]
+    [] e.ev = "reload" -> [o EXCEPT !.reloaded = @ \cup {e.sid}]
     [] e.ev = "sender.add" -> IF e.ok THEN [o EXCEPT !.removed = Put(@, e.sid, "live")] ELSE o
     [] e.ev = "sender.remove" -> [o EXCEPT !.removed = Put(@, e.sid, "removed")]
     [] e.ev = "crash" -> [o EXCEPT !.up = FALSE, !.crashes = TRUE,
@@ -354,6 +365,8 @@ CheckEv(o, e) ==
     [] e.ev = "upgrade" -> ChkUpgrade(o, e)
     [] e.ev = "fault" -> {(IF o.step.kind = "raw" THEN "C21|junk-" ELSE IF o.step.a = "msg" THEN "C09|message-" ELSE "C18|") \o
                           (IF e.what = "hang" THEN "handler-never-returned" ELSE "handler-panicked") \o "|" \o e.in \o "|" \o o.step.kind}
-    [] e.ev = "end" -> ChkEnd(o, e)
+    [] e.ev = "recovered" ->   \* C14: every record the node ever wrote must have been read back at this restart
+         {"C14|stored-record-not-reloaded|" \o o.rec[s].role \o "|" \o o.rec[s].cur : s \in (DOMAIN o.rec \ o.reloaded)}
+    [] e.ev = "end" -> ChkEnd(o, e) \cup ChkRefund(o, e)
     [] OTHER -> {}
 ===============================================================================
